@@ -138,6 +138,11 @@ theorem kept_genPair (s : State) (h m : Nat) (p v : Template) (o : RV) : Kept no
 
 theorem OnlyHandles.kept {s s' : State} (h : OnlyHandles s s') : Kept none s s' := kept_same h.1
 
+theorem Adds.kept {s : State} {r : State × Resp} (h : Adds s r) : Kept none s r.1 := by
+  rcases h with h | ⟨slot, hh, t, p, a, h⟩
+  · exact kept_same h.1
+  · rw [h]; exact kept_addObject _ _ _ _ _ _ _
+
 theorem kept_stepOp (s : State) (c : OpCall) : Kept none s (stepOp s c).1 := by
   cases c <;> simp only [stepOp]
   case cfgMechs => exact kept_same rfl
@@ -158,6 +163,9 @@ theorem kept_stepOp (s : State) (c : OpCall) : Kept none s (stepOp s c).1 := by
   case verifyFinal => exact (onlyHandles_verify ..).kept
   case genKey => exact kept_genKey _ _ _ _ _
   case genPair => exact kept_genPair _ _ _ _ _ _
+  case wrap => rw [adds_wrap]; exact Kept.refl _ _
+  case unwrap => exact (adds_unwrap _ _ _ _ _ _ _ _).kept
+  case derive => exact (adds_derive _ _ _ _ _ _ _).kept
 
 theorem kept_restart (s : State) : Kept none s (stepRestart s).1 := by
   unfold stepRestart stepFinalize
